@@ -65,7 +65,8 @@ CONSUME_OK = {
         ({"_handle_before_phase::after_stages", "_handle_before_phase::!not_started_after"}, "task-less parent whose after-stages were already started: their completion pushes ContinueParentStage(STAGE_AFTER)"),
         ({"!phase == SyntheticStageOwner.STAGE_BEFORE", "!phase == SyntheticStageOwner.STAGE_AFTER"}, "neither phase: SyntheticStageOwner has exactly these two members (C05.R6 checks the enum)"),
     ],
-    "JumpToStageHandler": [({"source_stage is None"}, "jump request naming a source stage that does not exist: nothing was started on its behalf")],
+    "JumpToStageHandler": [({"source_stage is None"}, "jump request naming a source stage that does not exist: nothing was started on its behalf"),
+                           ({"source_stage.status != WorkflowStatus.RUNNING"}, MOOT + " (the stage that asked for the jump was canceled / finalized before the jump was handled)")],
     "SignalStageHandler": [({"!stage.status == WorkflowStatus.SUSPENDED", "!message.persistent"}, "a non-persistent signal to a stage that is not waiting is dropped by design (C18)")],
     "CancelRegionHandler": [
         ({"!isinstance(execution, Workflow)"}, "no such workflow"),
